@@ -24,3 +24,22 @@ func HelperEntry(e *Engine, c *Config, f *Frame) {
 func FuncSpec(fn *ssa.Function, off, err, boolIdx, extra int) *Spec {
 	return &Spec{Fn: fn, OffsetIdx: off, ErrIdx: err, BoolIdx: boolIdx, ExtraIdx: extra}
 }
+
+
+// LastSliceEntry binds the LAST []byte parameter as the whole input (handler methods: HandleObjectValue(key, data)).
+func LastSliceEntry(e *Engine, c *Config, f *Frame) {
+	m0 := c.markAt(0)
+	var last *ssa.Parameter
+	for _, p := range f.Fn.Params {
+		f.Env[p] = Top{}
+		if isByteSlice(p.Type()) {
+			last = p
+		}
+	}
+	if last == nil {
+		e.problem(f.Fn.Pos(), f.Fn.Name(), "no []byte parameter")
+		return
+	}
+	f.Env[last] = SliceV{Lo: symForm(m0), Hi: symForm(END)}
+	f.Base = m0
+}
